@@ -130,7 +130,7 @@ def build(spec: tuple) -> Any:
 
 def run(tier: str, seed: int) -> Tuple[Stats, str, List[str], Dict[str, Any]]:
     install_seams()
-    from zeroconf import DNSCache
+    from zeroconf import DNSCache, DNSPointer
     from zeroconf._dns import DNSRRSet
     from zeroconf._dns import DNSNsec
 
@@ -202,6 +202,21 @@ def run(tier: str, seed: int) -> Tuple[Stats, str, List[str], Dict[str, Any]]:
                     a.set_created_ttl(c0, t0_)
                     if marked != (not want):
                         bad.append((i, j, f"cache flush by the second record marks the cached first one: {marked}, same record: {want}"))
+                if same_name and isinstance(b, DNSPointer) and hasattr(cache, "current_entry_with_name_and_alias") \
+                        and hasattr(a, "set_created_ttl") and (isinstance(a, DNSPointer) or a.type not in (5, 12)):
+                    # (the vocabulary also holds objects whose class and type code disagree - a text record carrying the
+                    # type code of a pointer; the wire cannot produce those, they are left out here)
+                    # "is this instance already advertised under this type?" - answered by pointer records (type PTR) only,
+                    # names compared case-insensitively; the class is not part of the question asked (either answer accepted)
+                    from zeroconf._utils.time import current_time_millis as _ctm
+                    c0, t0_ = a.created, a.ttl
+                    a.set_created_ttl(_ctm(), 120)
+                    hit = cache.current_entry_with_name_and_alias(b.name, b.alias)
+                    a.set_created_ttl(c0, t0_)
+                    want_hit = isinstance(a, DNSPointer) and a.type == 12 and a.alias.lower() == b.alias.lower()
+                    if (hit is a) != want_hit and not (want_hit is False and hit is None):
+                        bad.append((i, j, f"DNSCache.current_entry_with_name_and_alias({b.name!r}, {b.alias!r}) finds the cached "
+                                          f"record: {hit is a}, a pointer record (type PTR) with that target: {want_hit}"))
                 if not isinstance(b, DNSNsec):
                     g2 = cache.get(b)
                     if (g2 is a) != want:
